@@ -133,6 +133,12 @@ def ramsey_cases(tier):
                     for proto in ("min-delay", "no-delay"):
                         for pjt in (None, 200):
                             out.append((ch, b, t, phi, via, gap, proto, pjt))
+    # XY mode with an SLM mask on another (far away) atom, and a reference that is already non-zero when the FIRST pulse is played:
+    # the first pulse reaches the unmasked atom through the mask's own path of the sampler
+    for phi in some:
+        for via in ("shift", "post"):
+            for phi0 in (0.0, 2.0, -1.3):
+                out.append(("mw_global", "XY", None, phi, via, None, "min-delay", None, phi0))
     return out
 
 
@@ -141,15 +147,20 @@ def ramsey(case):
     from pulser_simulation import QutipEmulator
 
     ch, basis, tgt, phi, via = case[:5]
-    gap, proto, pjt = case[5:] if len(case) > 5 else (None, "min-delay", None)
+    gap, proto, pjt = case[5:8] if len(case) > 5 else (None, "min-delay", None)
+    phi0 = case[8] if len(case) > 8 else None
     w = World(dict(name="ramsey", pjt=pjt))
-    reg = Register({"q0": (0.0, 0.0)})
+    reg = Register({"q0": (0.0, 0.0)} if phi0 is None else {"q0": (0.0, 0.0), "q1": (400.0, 0.0)})
     seq = Sequence(reg, w.device)
+    if phi0 is not None:
+        seq.config_slm_mask(["q1"])
     seq.declare_channel("c", ch, initial_target=tgt)
+    if phi0:
+        seq.phase_shift(phi0, "q0", "q1", basis=basis)  # a Global channel needs one reference for all its targets
     half = Pulse.ConstantPulse(250, 2 * math.pi, 0.0, 0.0, post_phase_shift=phi if via == "post" else 0.0)  # pi/2
     seq.add(half, "c")
     if via == "shift":
-        seq.phase_shift(phi, "q0", basis=basis)
+        seq.phase_shift(phi, *(("q0",) if phi0 is None else ("q0", "q1")), basis=basis)
     if gap and gap.startswith("delay"):
         seq.delay(int(gap.split("-")[1]), "c")
     elif gap:
@@ -159,6 +170,9 @@ def ramsey(case):
     st = sim.run().get_final_state().full().ravel()
     # index of the state reached from the initial one: r of (r,g); h of (g,h); d of (u,d) (initial state all-u)
     names = {"ground-rydberg": 0, "digital": 1, "XY": 1}
+    if phi0 is not None:  # two atoms (u, d) x (u, d): population of d on q0, whatever the masked atom did afterwards
+        p = float(abs(st[2]) ** 2 + abs(st[3]) ** 2)
+        return p, math.cos(phi / 2) ** 2
     p = float(abs(st[names[basis]]) ** 2)
     return p, math.cos(phi / 2) ** 2
 
